@@ -85,6 +85,44 @@ impl Source for IntSource {
     }
 }
 
+/// Integer delivery in packets: some reads return fewer samples than asked for although the input
+/// has not ended (a pipe, a network stream). Both encoding modes turn every read into a frame.
+pub struct PacketSource {
+    pub ch: usize,
+    pub bps: usize,
+    pub rate: usize,
+    pub samples: Vec<i32>,
+    pub pos: usize,
+    pub reads: usize,
+}
+
+impl Source for PacketSource {
+    fn channels(&self) -> usize {
+        self.ch
+    }
+    fn bits_per_sample(&self) -> usize {
+        self.bps
+    }
+    fn sample_rate(&self) -> usize {
+        self.rate
+    }
+    fn read_samples<F: Fill>(&mut self, block_size: usize, dest: &mut F) -> Result<usize, SourceError> {
+        // read lengths cycle through: full, half, full, one sample, full - 1
+        let want = match self.reads % 5 {
+            1 => (block_size / 2).max(1),
+            3 => 1,
+            4 => (block_size - 1).max(1),
+            _ => block_size,
+        };
+        self.reads += 1;
+        let end = (self.pos + want * self.ch).min(self.samples.len());
+        dest.fill_interleaved(&self.samples[self.pos..end])?;
+        let n = (end - self.pos) / self.ch;
+        self.pos = end;
+        Ok(n)
+    }
+}
+
 /// Packed little-endian byte delivery without a length hint.
 pub struct ByteSource {
     pub ch: usize,
